@@ -73,6 +73,16 @@ def h_intarray():
     return lsl.GraphBuilder().add(y).build_model(), spec, ["m", "y"]
 
 
+def h_direct_copy():
+    """as `direct`, built with the non-default copy=True: simulate() must draw into the MODEL's own (copied) variables"""
+    import liesel.model as lsl
+    h = _hp(mu_loc=3.0, mu_scale=2.0, y_scale=0.5)
+    mu = lsl.Var(0.0, lsl.Dist(tfd().Normal, loc=h["mu_loc"], scale=h["mu_scale"]), name="mu")
+    y = lsl.Var(jnp.zeros(2), lsl.Dist(tfd().Normal, loc=mu, scale=h["y_scale"]), name="y")
+    spec = {"mu": ((), lambda v: v["mu_loc"], lambda v: v["mu_scale"]), "y": ((2,), lambda v: v["mu"], lambda v: v["y_scale"])}
+    return lsl.GraphBuilder().add(y).build_model(copy=True), spec, ["mu", "y"]
+
+
 def h_calc():
     import liesel.model as lsl
     h = _hp(mu_loc=3.0, mu_scale=2.0, y_scale=0.5)
@@ -120,7 +130,7 @@ def h_twolevel():
     return lsl.GraphBuilder().add(c).build_model(), spec, ["a", "b", "c"]
 
 
-FAMILY = {"direct": h_direct, "uniform root": h_uniform, "int-typed current value": h_intarray, "user-named dist nodes": h_named, "via-calc": h_calc, "diamond": h_diamond, "per_obs=False": h_perobs, "two-level+matrix": h_twolevel}
+FAMILY = {"direct": h_direct, "direct, built with copy=True": h_direct_copy, "uniform root": h_uniform, "int-typed current value": h_intarray, "user-named dist nodes": h_named, "via-calc": h_calc, "diamond": h_diamond, "per_obs=False": h_perobs, "two-level+matrix": h_twolevel}
 
 
 def scenario(chk, hname, auto, skip):
@@ -236,7 +246,7 @@ def main():
     if chk.tier == "quick":
         plan = [("direct", True, ()), ("via-calc", False, ()), ("via-calc", True, ()), ("diamond", False, ()), ("diamond", True, ("m",)),
                 ("per_obs=False", False, ()), ("two-level+matrix", False, ("a",)), ("direct", False, ("mu_log_prob",)), ("via-calc", False, ("y_var_value",)),
-                ("user-named dist nodes", True, ("mu_prior",)), ("user-named dist nodes", False, ("lik",)), ("uniform root", False, ()), ("uniform root", True, ("y",)), ("int-typed current value", False, ())]
+                ("user-named dist nodes", True, ("mu_prior",)), ("user-named dist nodes", False, ("lik",)), ("uniform root", False, ()), ("uniform root", True, ("y",)), ("int-typed current value", False, ()), ("direct, built with copy=True", True, ())]
     else:
         plan = []
         for h in FAMILY:
